@@ -981,9 +981,10 @@ func (e *Exec) callContract(st *State, call *ast.CallExpr, fn *types.Func, c *Co
 		e.unsupported(call.Pos(), "%v", err)
 		return e.freshResults(st, call, fn.Name())
 	}
-	caller := e.fr()
-	caller.callSeen[c.Key]++
-	ord := caller.callSeen[c.Key]
+	// ordinal of this call among the calls of the same callee reached from the verified function (also
+	// through inlined helpers): preconditions are always proof obligations, never assumptions
+	e.frames[0].callSeen[c.Key]++
+	ord := e.frames[0].callSeen[c.Key]
 	// bind callee parameters
 	f := e.pushFrame(e.P.ByKey[c.Pkg+":"+c.Key], sc.info)
 	if f.fi == nil {
@@ -1007,7 +1008,7 @@ func (e *Exec) callContract(st *State, call *ast.CallExpr, fn *types.Func, c *Co
 		e.specOld = env
 		t := e.evalSpec(env, r)
 		e.specOld = savedOld
-		if len(e.frames) == 2 { // call made directly by the verified function
+		{
 			name := fmt.Sprintf("%s/pre/%s#%d/%s", e.fnName(), c.Key, ord, r.Label)
 			e.Ctx.AddObligation(e.Fn.FullName(), "pre", name, st.PC, t, e.pos(call.Pos()))
 		}
